@@ -3,12 +3,14 @@
   Property theorems only; helper lemmas live in `Genshi/Lemmas/Path*.lean`.
 
   OBLIGATIONS (checked by the harness: every name is a theorem of this file, axioms audited):
-    strategies_order supports_probe_agrees union_is_first_nonNone
+    strategies_order supports_probe_agrees union_is_first_nonNone single_eq_generic
+    forest_positional_differs
 -/
 import Genshi.Model.Path
 import Genshi.Model.PathParse
 import Genshi.Model.PathStrategy
 import Genshi.Gen.Path
+import Genshi.Lemmas.PathSingle
 namespace Genshi.Props.C17
 open Genshi Genshi.Path
 
@@ -49,5 +51,72 @@ theorem union_is_first_nonNone (ms : List Matcher) (ns : NsMap) (vs : Vars) (sts
   unfold multiStep
   simp only [foldl_first, List.map_map]
   rfl
+
+/-! ## SingleStepStrategy is an abstraction of GenericStrategy -/
+
+theorem runTest_generic (steps : List Step) (ns : NsMap) (vs : Vars) (g : GState) (es : List Event) :
+    runTest [.generic steps] ns vs [.g g] es = (runOne (gStep steps ns vs) g es).1 := by
+  induction es generalizing g with
+  | nil => rfl
+  | cons e es ih =>
+    simp only [runTest, multiStep, List.zip_cons_cons, List.zip_nil_right, List.map_cons, List.map_nil,
+      Matcher.step, List.foldl_cons, List.foldl_nil, Val.isNone, runOne]
+    rw [ih]
+    simp
+
+theorem runTest_single (steps : List Step) (ic : Bool) (ns : NsMap) (vs : Vars) (t : SState) (es : List Event) :
+    runTest [.single steps ic] ns vs [.s t] es = (runOne (sStep steps ic ns vs) t es).1 := by
+  induction es generalizing t with
+  | nil => rfl
+  | cons e es ih =>
+    simp only [runTest, multiStep, List.zip_cons_cons, List.zip_nil_right, List.map_cons, List.map_nil,
+      Matcher.step, List.foldl_cons, List.foldl_nil, Val.isNone, runOne]
+    rw [ih]
+    simp
+
+/-- **single_eq_generic.**  For every single location step — any of the five axes, any node
+    test, any predicates, positional ones included —, both modes (`ignore_context`), both caller
+    behaviours (testing every event / skipping matched subtrees with update-only calls) and every
+    element tree, SingleStepStrategy reports, event by event, exactly what GenericStrategy
+    reports.  Proved by a simulation: the depth counter abstracts the position stack, the single
+    counter list is the counter of the one context node (`Lemmas/PathSingle.lean`).
+
+    Hypotheses: the stream is the flattening of ONE element (with several top-level elements
+    the two differ on positional predicates: `forest_positional_differs`, finding
+    C17-forest-positional); on the attribute axis the node test is one the parser builds for
+    that axis. -/
+theorem single_eq_generic (s : Step) (ic skip : Bool) (ns : NsMap) (vs : Vars)
+    (tag : QName) (attrs : AttrList) (kids : List Node) (hok : okList kids = true)
+    (hattr : s.axis = .attribute → s.test.attrFlag = true) :
+    traceCaller (pathTest [[s]] ic (some .single)).1 ns vs skip (pathTest [[s]] ic (some .single)).2
+        (Node.elem tag attrs kids).flatten
+      = traceCaller (pathTest [[s]] ic (some .generic)).1 ns vs skip (pathTest [[s]] ic (some .generic)).2
+        (Node.elem tag attrs kids).flatten := by
+  simp only [traceCaller, pathTest, List.map_cons, List.map_nil, mkMatcher]
+  rw [runTest_generic, runTest_single, single_eq_generic_run s ic ns vs tag attrs kids hok hattr]
+
+-- the hypotheses are satisfiable on a non-trivial input: `b[2]` on <a><b/><b/></a>
+example : okList [Node.elem ⟨[], ['b']⟩ [] [], Node.elem ⟨[], ['b']⟩ [] []] = true := by decide
+example : runTest (pathTest [[⟨.child, .localName false ['b'], [.num (.dec false 2 0)]⟩]] false (some .single)).1 [] []
+    (pathTest [[⟨.child, .localName false ['b'], [.num (.dec false 2 0)]⟩]] false (some .single)).2
+    (Node.elem ⟨[], ['a']⟩ [] [Node.elem ⟨[], ['b']⟩ [] [], Node.elem ⟨[], ['b']⟩ [] []]).flatten
+    = [.none, .none, .none, .bool true, .none, .none] := by decide +kernel
+
+/-- `b[2]` -/
+def pathB2 : LocPath := [⟨.child, .localName false ['b'], [.num (.dec false 2 0)]⟩]
+
+/-- two top-level elements `<a><b/></a><a><b/></a>` -/
+def forest2 : List Event :=
+  (Node.elem ⟨[], ['a']⟩ [] [Node.elem ⟨[], ['b']⟩ [] []]).flatten ++
+  (Node.elem ⟨[], ['a']⟩ [] [Node.elem ⟨[], ['b']⟩ [] []]).flatten
+
+/-- finding C17-forest-positional: on a stream with two top-level elements the single-tree
+    hypothesis of `single_eq_generic` cannot be dropped — SingleStepStrategy reports the `b`
+    of the second tree as `b[2]`, GenericStrategy does not -/
+theorem forest_positional_differs :
+    runTest (pathTest [pathB2] false (some .single)).1 [] [] (pathTest [pathB2] false (some .single)).2 forest2
+      = [.none, .none, .none, .none, .none, .bool true, .none, .none] ∧
+    runTest (pathTest [pathB2] false (some .generic)).1 [] [] (pathTest [pathB2] false (some .generic)).2 forest2
+      = [.none, .none, .none, .none, .none, .none, .none, .none] := by decide +kernel
 
 end Genshi.Props.C17
